@@ -42,8 +42,12 @@ type promotionContext struct {
 // that any variable promoted at a parent level is gone before
 // children try to promote it again (idempotent — children would
 // classify it as having no remaining uses).
-func promoteBlocks(ctx *promotionContext, blk *[]ir.Statement) {
-	promoteWithinBlock(ctx, blk)
+//
+// inLoop is true when blk is (nested in) a loop body or continuing block, i.e. it may
+// run more than once: there a load that precedes every store of the block reads the
+// value left by the previous iteration, not the variable's initial value.
+func promoteBlocks(ctx *promotionContext, blk *[]ir.Statement, inLoop bool) {
+	promoteWithinBlock(ctx, blk, inLoop)
 	// Recurse into nested blocks. We rebuild nested-block slices
 	// when promotion deletes statements; afterward we write the
 	// new slice back into the parent statement so subsequent
@@ -52,13 +56,13 @@ func promoteBlocks(ctx *promotionContext, blk *[]ir.Statement) {
 		switch sk := (*blk)[i].Kind.(type) {
 		case ir.StmtBlock:
 			b := []ir.Statement(sk.Block)
-			promoteBlocks(ctx, &b)
+			promoteBlocks(ctx, &b, inLoop)
 			(*blk)[i].Kind = ir.StmtBlock{Block: ir.Block(b)}
 		case ir.StmtIf:
 			a := []ir.Statement(sk.Accept)
 			r := []ir.Statement(sk.Reject)
-			promoteBlocks(ctx, &a)
-			promoteBlocks(ctx, &r)
+			promoteBlocks(ctx, &a, inLoop)
+			promoteBlocks(ctx, &r, inLoop)
 			(*blk)[i].Kind = ir.StmtIf{
 				Condition: sk.Condition,
 				Accept:    ir.Block(a),
@@ -67,8 +71,8 @@ func promoteBlocks(ctx *promotionContext, blk *[]ir.Statement) {
 		case ir.StmtLoop:
 			b := []ir.Statement(sk.Body)
 			c := []ir.Statement(sk.Continuing)
-			promoteBlocks(ctx, &b)
-			promoteBlocks(ctx, &c)
+			promoteBlocks(ctx, &b, true)
+			promoteBlocks(ctx, &c, true)
 			(*blk)[i].Kind = ir.StmtLoop{
 				Body:       ir.Block(b),
 				Continuing: ir.Block(c),
@@ -79,7 +83,7 @@ func promoteBlocks(ctx *promotionContext, blk *[]ir.Statement) {
 			copy(cases, sk.Cases)
 			for ci := range cases {
 				cb := []ir.Statement(cases[ci].Body)
-				promoteBlocks(ctx, &cb)
+				promoteBlocks(ctx, &cb, inLoop)
 				cases[ci].Body = ir.Block(cb)
 			}
 			(*blk)[i].Kind = ir.StmtSwitch{Selector: sk.Selector, Cases: cases}
@@ -89,7 +93,7 @@ func promoteBlocks(ctx *promotionContext, blk *[]ir.Statement) {
 
 // promoteWithinBlock identifies and promotes variables whose entire
 // set of uses lives inside blk. Returns silently if no candidates.
-func promoteWithinBlock(ctx *promotionContext, blk *[]ir.Statement) {
+func promoteWithinBlock(ctx *promotionContext, blk *[]ir.Statement, inLoop bool) {
 	// Step 1: count uses per variable inside this block only.
 	localStores, localLoads := countLocalUses(ctx, blk)
 	if len(localStores) == 0 && len(localLoads) == 0 {
@@ -99,6 +103,15 @@ func promoteWithinBlock(ctx *promotionContext, blk *[]ir.Statement) {
 	// Step 2: select candidates whose global use counts match the
 	// in-block counts (all stores and all loads contained here).
 	candidates := selectBlockCandidates(ctx, localStores, localLoads)
+	if inLoop {
+		// A block that is re-executed: only a variable that is stored before it is
+		// first loaded can be promoted from the block's own text.
+		for v := range candidates {
+			if !firstUseIsStore(ctx, blk, v) {
+				delete(candidates, v)
+			}
+		}
+	}
 	if len(candidates) == 0 {
 		return
 	}
@@ -106,6 +119,26 @@ func promoteWithinBlock(ctx *promotionContext, blk *[]ir.Statement) {
 	// Step 3: walk the block in textual order, rewriting loads and
 	// marking stores for deletion.
 	rewriteBlock(ctx, blk, candidates)
+}
+
+// firstUseIsStore reports whether, in textual order, blk stores variable v before any
+// StmtEmit range of blk covers a load of it.
+func firstUseIsStore(ctx *promotionContext, blk *[]ir.Statement, v uint32) bool {
+	for i := range *blk {
+		switch sk := (*blk)[i].Kind.(type) {
+		case ir.StmtStore:
+			if pv, ok := ctx.localPtrs[sk.Pointer]; ok && pv == v {
+				return true
+			}
+		case ir.StmtEmit:
+			for h := sk.Range.Start; h < sk.Range.End; h++ {
+				if lv, ok := loadHandleVar(ctx, h); ok && lv == v {
+					return false
+				}
+			}
+		}
+	}
+	return false
 }
 
 // countLocalUses tallies, per variable, how many StmtStore
